@@ -646,6 +646,32 @@ pub fn size_ladders(tier: Tier) -> Vec<(String, String)> {
         v.push((format!("match-tuple-ellipsis-{n}"), format!("x = match (99, 98, {})\n  (..., {}) then {probe}\n  else 'no match'\nprint x\n", vals.join(", "), names.join(", "))));
         v.push((format!("for-nested-args-{n}"), format!("for ({}) in (({}),)\n  print {probe}\n", names.join(", "), vals.join(", "))));
     }
+    // literals larger than the register window (elements are pushed in batches), alone and with many live locals
+    for n in [100usize, 253, 254, 255, 256, 257, 300, 506, 507, 508, 509, 510, 520, 777] {
+        let vals: Vec<String> = (0..n).map(|_| "1".to_string()).collect();
+        // built inside a function of its own, so that the full frame is not the one that prints
+        v.push((format!("list-literal-sum-{n}"), format!("mk = ||\n  [{}]\nprint mk().sum()\n", vals.join(", "))));
+    }
+    for n in [5usize, 9, 10, 11, 12, 13, 20, 40] {
+        let mut s = String::new();
+        for i in 0..240 {
+            s.push_str(&format!("v{i} = {i}\n"));
+        }
+        let vals: Vec<String> = (0..n).map(|_| "1".to_string()).collect();
+        s.push_str(&format!("x = ({})\nx\n", vals.join(", ")));
+        let body: String = s.lines().map(|l| format!("  {l}\n")).collect();
+        v.push((format!("tuple-literal-under-pressure-{n}"), format!("mk = ||\n{body}print mk().sum()\n")));
+    }
+    // many constants before the first use of further constants: every constant operand is a
+    // variable-length integer (1 byte up to 127, 2 bytes up to 16383)
+    for n in tier.pick(vec![120usize, 126, 127, 128, 129, 130, 200], vec![120, 126, 127, 128, 129, 130, 200, 16380, 16383, 16384, 16385, 16390]) {
+        let mut s = String::new();
+        for i in 0..n {
+            s.push_str(&format!("q = 'c{i}'\n"));
+        }
+        s.push_str("m = {ka: 1, kb: 2}\nr1 = match m\n  {ka, kb} then (ka, kb)\n  else 'nomatch'\nobj = {fld: 'v', @meta mk: 'meta', @type: 'Ty'}\nr2 = try\n  throw {ck: 'ck'}\ncatch {ck}\n  ck\nf = |arg: Number| -> Number\n  arg + 4\nn3 = 3\nprint (r1[0], r1[1], obj.fld, r2, obj.mk, 'x{n3}y', f(3))\n");
+        v.push((format!("constants-before-uses-{n}"), s));
+    }
     // import item counts and multi-assignment target counts around the 7 bit / signed 8 bit limits
     for n in range(tier.pick(124, 118), tier.pick(131, 140)) {
         let names: Vec<String> = (0..n).map(|i| format!("a{i}")).collect();
@@ -717,6 +743,8 @@ fn expected_ladder_output(name: &str) -> Option<String> {
         "while-body" | "for-body" | "loop-body" | "loop-tail-break" => format!("{}\n", 2 * k),
         "and-rhs" => format!("({k}, true)\n").replace(&format!("({k}"), "(0"),
         "import-items" => "caught\n".to_string(),
+        "list-literal" | "tuple-literal" | "map-literal" | "list-literal-sum" | "tuple-literal-under-pressure" => format!("{k}\n"),
+        "constants-before-uses" => "(1, 2, 'v', 'ck', 'meta', 'x3y', 7)\n".to_string(),
         "multi-assign-last" | "multi-assign-last-in-fn" => format!("{}\n", k - 1),
         "nested-args" | "nested-args-ellipsis" | "nested-args-trailing-ellipsis" | "match-tuple" | "match-tuple-ellipsis" | "for-nested-args" => format!("(0, {}, {})\n", k / 2, k - 1),
         _ => return None,
